@@ -131,6 +131,9 @@ func (b *htmlBlockParser) Open(parent ast.Node, reader text.Reader, pc Context) 
 	} else if match := htmlBlockType7Regexp.FindSubmatchIndex(line); match != nil {
 		isCloseTag := match[2] > -1 && bytes.Equal(line[match[2]:match[3]], []byte("/"))
 		hasAttr := match[6] != match[7]
+		if isCloseTag && bytes.HasSuffix(bytes.TrimRight(line, " \t\r\n"), []byte("/>")) {
+			hasAttr = true // '</a/>' is no closing tag: nothing but white space may stand before its '>'
+		}
 		tagName := strings.ToLower(string(line[match[4]:match[5]]))
 		_, ok := allowedBlockTags[tagName]
 		if ok {
